@@ -180,8 +180,12 @@ func (s *sender) recvAck(ackNo uint32) (uint32, error) {
 
 	missingFrameNo := uint32(0)
 	oldAckNo := s.ackNo
-	newAckNo := uint64(ackNo)
-	if newAckNo < s.ackNo && (newAckNo+(1<<32)-s.ackNo <= uint64(s.senderWindow.windowSize)) { // wrap around
+	// The wire carries the low 32 bits. Extend them with the high bits of the
+	// next expected acknowledgement; a value that then lies behind s.ackNo is
+	// taken as wrapped if it acknowledges no more than what is outstanding
+	// (which can be more than the current, possibly shrunk, window).
+	newAckNo := s.ackNo&^(1<<32-1) | uint64(ackNo)
+	if newAckNo < s.ackNo && (newAckNo+(1<<32)-s.ackNo <= uint64(len(s.frames))) { // wrap around
 		newAckNo = newAckNo + (1 << 32)
 	}
 
